@@ -1218,6 +1218,7 @@ fn execute(sc: &Scenario, keep: bool) -> (Report, RunInfo) {
         let mut round = 0usize;
         let mut quiet = 0u64;
         let last_script = sc.script.iter().map(|(s, _)| *s).max().unwrap_or(0);
+        let mut first_seen: Vec<(Flight, u32)> = Vec::new();
         for s in 1..=cap {
             steps = s;
             for (at, act) in &sc.script {
@@ -1324,9 +1325,23 @@ fn execute(sc: &Scenario, keep: bool) -> (Report, RunInfo) {
                 ended = End::AllDone;
                 break;
             }
+            // since when has each message been in flight? One that outlives the largest latency on a link
+            // that is neither held nor partitioned is stuck, not moving (nothing more will happen to it)
+            first_seen.retain(|(f, _)| after.contains(f));
+            for f in &after {
+                if !first_seen.iter().any(|(g, _)| g == f) {
+                    first_seen.push((*f, s));
+                }
+            }
             let moving = after.iter().any(|f| {
                 if owned {
                     return true;
+                }
+                if s > last_script && !sh.partitioned.get() {
+                    let since = first_seen.iter().find(|(g, _)| g == f).map(|(_, t)| *t).unwrap_or(s);
+                    if (s - since.max(last_script)) as u64 > quiet_need + 2 {
+                        return false;
+                    }
                 }
                 // messages on a held link do not move
                 let pair = |ip: std::net::IpAddr| (0..sc.hosts).find(|h| host_ip(*h, sc.cfg.ipv6) == ip);
